@@ -126,6 +126,38 @@ func ruleLimiterRegion(c *Ctx, r *Rule) {
 				okV = true
 			}
 		}
+		// the other spelling: constant verdicts under that comparison (`if get(..) <= limit { return true } ... return false`)
+		verdictLit := func(l lit, want bool) bool {
+			op, x, _, ok := cmpLit(l)
+			if !ok || x != g.Value() {
+				return false
+			}
+			if want {
+				return op == token.LEQ
+			}
+			return op == token.GTR
+		}
+		constUnderVerdict := func(ret *ssa.Return, b bool) bool {
+			for _, l := range c.unitGuards(ret) {
+				if verdictLit(l, b) {
+					return true
+				}
+			}
+			return false
+		}
+		if !okV {
+			hasT, hasF := false, false
+			for _, ret := range returnsOf(isA) {
+				if b, isK := constBool(retResults(ret)[0]); isK && constUnderVerdict(ret, b) {
+					if b {
+						hasT = true
+					} else {
+						hasF = true
+					}
+				}
+			}
+			okV = hasT && hasF
+		}
 		r.Ob(okV, name+"|verdict", g.Pos(), "the verdict is (count after adding) <= limit")
 		// the amount added: constant 1 (count kind) or event.Size (size kind)
 		for i, a := range adds {
@@ -145,6 +177,18 @@ func ruleLimiterRegion(c *Ctx, r *Rule) {
 						g = true
 					}
 				}
+			}
+			// constants decided by the count comparison itself are the verdict, not an early return
+			isVerdict := false
+			if len(gets) == 1 {
+				for _, l := range c.unitGuards(ret) {
+					if op, x, _, ok := cmpLit(l); ok && x == gets[0].Value() && ((b && op == token.LEQ) || (!b && op == token.GTR)) {
+						isVerdict = true
+					}
+				}
+			}
+			if isVerdict {
+				continue
 			}
 			r.Ob(b && g, fmt.Sprintf("%s|early-return#%d", name, i), ret.Pos(), "the only constant verdict is 'allowed' for a negative (unlimited) limit")
 		}
